@@ -111,6 +111,8 @@ def run(prop: str, tier: str) -> int:
                 nop = nested_ops[(k + oi) % len(nested_ops)]
                 if rb == "split" and nop == "copy_to":
                     nop = "copy"     # (copy_to of an EMPTY tree is refused with ValueError)
+                if op == "copy_to_same":
+                    rb = False       # (the target node must stay part of the tree)
                 traces.append(L.run_trace(op, schedule=h, nested=True, nested_op=nop, tmpdir=tmpdir, trace_id=tid, rebuild=rb))
         validate(rep, traces, "forced: 1 writer (nested) x 1 reader, every operation")
         traces = []
